@@ -233,3 +233,100 @@ func runHistory() {
 		func(l *mc.Local, i int) { historySeq(l, menu, fresh, seqs[i]) })
 }
 
+// ---------------------------------------------------------------------------------------------
+// (e) hint spellings: the writer documents every numeric / enumerated hint both as a typed value
+// and as its string spelling. For every level x version hint x mask hint x margin the symbol
+// written with ALL hints spelled as strings must read back (text, level) and be pixel-identical
+// to the symbol written with typed values.
+
+type spellCase struct {
+	Sub     string // "spelling"
+	Text    string
+	Level   int
+	Version int // 0 = none
+	Mask    int // -1 = none
+	Margin  int // -1 = none
+	GS1     bool
+}
+
+func (c spellCase) hints(asStrings bool) map[gozxing.EncodeHintType]interface{} {
+	h := map[gozxing.EncodeHintType]interface{}{}
+	if asStrings {
+		h[gozxing.EncodeHintType_ERROR_CORRECTION] = string(levelNames[c.Level])
+	} else {
+		h[gozxing.EncodeHintType_ERROR_CORRECTION] = libLevels[c.Level]
+	}
+	put := func(k gozxing.EncodeHintType, v int, on bool) {
+		if !on {
+			return
+		}
+		if asStrings {
+			h[k] = fmt.Sprint(v)
+		} else {
+			h[k] = v
+		}
+	}
+	put(gozxing.EncodeHintType_QR_VERSION, c.Version, c.Version > 0)
+	put(gozxing.EncodeHintType_QR_MASK_PATTERN, c.Mask, c.Mask >= 0)
+	put(gozxing.EncodeHintType_MARGIN, c.Margin, c.Margin >= 0)
+	if c.GS1 {
+		if asStrings {
+			h[gozxing.EncodeHintType_GS1_FORMAT] = "true"
+		} else {
+			h[gozxing.EncodeHintType_GS1_FORMAT] = true
+		}
+	}
+	return h
+}
+
+func spellOne(l *mc.Local, c spellCase) {
+	l.Beat(fmt.Sprintf("spelling %+v", c))
+	var typed, spelled *gozxing.BitMatrix
+	var e1, e2 error
+	pm, site := mc.Guard(func() {
+		typed, e1 = qrcode.NewQRCodeWriter().Encode(c.Text, gozxing.BarcodeFormat_QR_CODE, 0, 0, c.hints(false))
+		spelled, e2 = qrcode.NewQRCodeWriter().Encode(c.Text, gozxing.BarcodeFormat_QR_CODE, 0, 0, c.hints(true))
+	})
+	l.Count("evaluations", 2)
+	key := fmt.Sprintf("C01/spelling/level=%c", levelNames[c.Level])
+	if pm != "" {
+		chk.Violation("C01/panic/"+site, "QRCodeWriter panicked with string-spelled hints: "+pm, c)
+		return
+	}
+	if e1 != nil {
+		return // the typed-value case is judged by the other families
+	}
+	if e2 != nil {
+		chk.Violation(key+"/refused", fmt.Sprintf("hints spelled as strings are refused (%v) where the typed values are accepted: %+v", e2, c), c)
+		return
+	}
+	if !equalMatrix(typed, spelled) {
+		chk.Violation(key+"/differs", fmt.Sprintf("the symbol written with string-spelled hints differs from the one written with typed values: %+v", c), c)
+		return
+	}
+	r := decodeImage(spelled)
+	want := c.Text
+	if kind, what := checkRead(want, c.Level, r, true); kind != "" && !c.GS1 {
+		chk.Violation(key+"/"+kind, fmt.Sprintf("symbol written with string-spelled hints %+v: %s", c, what), c)
+		return
+	}
+	l.Distinct("nontrivial", fmt.Sprintf("spelling %+v", c))
+}
+
+func runSpellings() {
+	var cases []spellCase
+	for lv := 0; lv < 4; lv++ {
+		for _, v := range []int{0, 1, 2, 7, 10, 27, 40} {
+			for mask := -1; mask < 8; mask++ {
+				for _, mg := range []int{-1, 4, 7} {
+					cases = append(cases, spellCase{"spelling", "SPELLED 42", lv, v, mask, mg, false})
+				}
+			}
+			cases = append(cases, spellCase{"spelling", "0112345678901231", lv, v, 2, -1, true})
+		}
+	}
+	chk.Range("(e) hint spellings: level{L,M,Q,H} x version hint{none,1,2,7,10,27,40} x mask hint{none,0..7} x margin{none,4,7} (and GS1) with ALL hints spelled as strings: accepted like the typed values, pixel-identical symbol, reads back with the same level", len(cases),
+		func(i int) string { return fmt.Sprintf("%+v", cases[i]) },
+		func(l *mc.Local, i int) { spellOne(l, cases[i]) })
+	chk.Sample("spelling", cases[len(cases)/2])
+}
